@@ -15,6 +15,9 @@
 
   Out of contract (the real code panics: big.Float cannot hold NaN, `Inf·0`): NaN / Inf
   coordinates, NaN chord angle.  The model is total there but nothing is claimed.
+
+  Repair D54 (floaterr3): `triageCompareCosDistance` uses `math.Abs(cosR)` in `cosRError`; the model follows the
+  REPAIRED code (the pre-repair functions are kept as `…Old` in `S2Proofs/Properties/C02_DistanceExact.lean`).
 -/
 import S2.F64
 import S2.STUV
@@ -301,11 +304,12 @@ def exactDistancesDecision (x a b : V3) : Int :=
   let s := exactCompareDistances (ofV3 x) (ofV3 a) (ofV3 b)
   if s != 0 then s else symbolicCompareDistances x a b
 
-/-- (diff, err) of `triageCompareCosDistance(x,y,r2)` -/
+/-- (diff, err) of `triageCompareCosDistance(x,y,r2)`; `cosRError = 2·dblError·|cosR|` (repair D54: the code
+    used `cosR` without `math.Abs`, which made the bound SHRINK for limits beyond 90°) -/
 def cosDistanceDiffErr (x y : V3) (r2 : F64) : F64 × F64 :=
   let (cosXY, eXY) := cosDistance x y
   let cosR := F64.one - F64.half * r2
-  let cosRError := twoDblError * cosR
+  let cosRError := twoDblError * cosR.abs
   (cosXY - cosR, eXY + cosRError)
 
 /-- `triageCompareCosDistance` -/
@@ -338,9 +342,13 @@ def exactCompareDistanceS (S : Int) (x y : IV3) (r2 : Int) : Int :=
     let cmp := cosR2 * cosR2 * (x.norm2 * y.norm2) - 4 * S * S * (cosXY * cosXY)
     xySign * sgn cmp
 
-/-- `exactCompareDistance` on float inputs (finite r2; Go panics on NaN) -/
+/-- `exactCompareDistance` on float inputs.  Finite r2: exact integers.  r2 = ±Inf (`big.NewFloat(±Inf)`; reached for
+    `InfChordAngle` since repair D54, before it the cos triage decided): `cosR = 1 − ½·(±Inf) = ∓Inf`, and with
+    big.Float's infinity arithmetic both branches return the sign of −cosR: −1 for +Inf (every distance is below
+    the limit), +1 for −Inf (non-zero vectors; `Inf·0` panics).  NaN: Go panics, the model returns 0. -/
 def exactCompareDistance (x y : V3) (r2 : F64) : Int :=
-  if !r2.isFinite then 0 else exactCompareDistanceS scale (ofV3 x) (ofV3 y) (toInt r2)
+  if !r2.isFinite then (if r2.isNaN then 0 else if r2.signBit then 1 else -1)
+  else exactCompareDistanceS scale (ofV3 x) (ofV3 y) (toInt r2)
 
 /-- `CompareDistance(x,y,r)` with deciding stage: 0 cos triage, 2 sin² triage, 3 exact -/
 def compareDistanceS (x y : V3) (r : F64) : Int × Nat :=
